@@ -290,22 +290,22 @@ Qed.
 Lemma get_info_chunk : forall o rank p g kq g' have,
   tbl_req_chunk o p = Some kq ->
   get_info o rank p g = Some (g', have) ->
-  have = tbl_named o p /\ chunk_applied kq rank g'.
+  (have = true -> tbl_named o p = true) /\ chunk_applied kq rank g'.
 Proof.
   intros o rank p g kq g' have Hreq Hg.
   unfold tbl_req_chunk in Hreq. unfold get_info in Hg. unfold tbl_named.
   destruct (all_chunk o) eqn:Eck; destruct (all_comp o) eqn:Ecp; simpl in Hg.
-  - inversion Hreq; subst. inversion Hg; subst. split; [reflexivity|].
+  - inversion Hreq; subst. inversion Hg; subst. split; [discriminate|].
     apply cic_keeps_chunk. apply global_chunk_applied.
-  - inversion Hreq; subst. destruct (lookup p (tbl o)) as [e|]; inversion Hg; subst; (split; [reflexivity|]).
+  - inversion Hreq; subst. destruct (lookup p (tbl o)) as [e|]; inversion Hg; subst; (split; [auto|]).
     + apply cic_keeps_chunk. apply global_chunk_applied.
     + apply global_chunk_applied.
   - destruct (lookup p (tbl o)) as [e|] eqn:El; [|discriminate]. inversion Hreq; subst.
     destruct (entry_chunk e rank g) as [g1|] eqn:Ee; [|discriminate]. inversion Hg; subst.
-    split; [reflexivity|]. apply cic_keeps_chunk. eapply entry_chunk_applied; eauto.
+    split; [auto|]. apply cic_keeps_chunk. eapply entry_chunk_applied; eauto.
   - destruct (lookup p (tbl o)) as [e|] eqn:El; [|discriminate]. inversion Hreq; subst.
     destruct (entry_chunk e rank g) as [g1|] eqn:Ee; [|discriminate].
-    destruct (0 <=? c_type (p_comp e)); inversion Hg; subst; (split; [reflexivity|]).
+    destruct (0 <=? c_type (p_comp e)); inversion Hg; subst; (split; [auto|]).
     + apply cic_keeps_chunk. eapply entry_chunk_applied; eauto.
     + eapply entry_chunk_applied; eauto.
 Qed.
@@ -395,7 +395,8 @@ Lemma decide_requested_chunk_lemma : forall o k p i kq l,
 Proof.
   intros o k p i kq l Hk Hreq Hne Hbig Hd.
   destruct (decide_unfold _ _ _ _ _ Hk Hne Hd) as [g' [have [Hg Hf]]].
-  destruct (get_info_chunk _ _ _ _ _ _ _ Hreq Hg) as [Hh [H1 H2]]. subst have.
+  destruct (get_info_chunk _ _ _ _ _ _ _ Hreq Hg) as [Hh [H1 H2]].
+  assert (Hbig' : have = true -> threshold o <= o_bytes i) by (intro X; apply Hbig; apply Hh; exact X).
   split.
   - intro Hr. eapply finish_unchunk; eauto.
   - intros Hr Hpos Hrec. destruct (H2 Hr Hpos) as [Hfc Hl]. rewrite <- Hl. eapply finish_chunk; eauto.
@@ -1219,3 +1220,32 @@ Lemma decide_total_and_requested_lemma : forall es o k p i l,
 Proof.
   intros es o k p i l H Hk Hr Hd. eapply decide_meets_spec_lemma; eauto. apply build_reflects_lemma. exact H.
 Qed.
+
+(** * Traversal tags and metadata plumbing (round 2) *)
+Lemma covered_In : forall tags by_, covered tags by_ = true -> forall t, In t tags -> In t by_.
+Proof.
+  intros tags by_ H t Hin. unfold covered in H. rewrite forallb_forall in H. specialize (H _ Hin).
+  apply existsb_exists in H. destruct H as [x [Hx E]]. apply Z.eqb_eq in E. subst. exact Hx.
+Qed.
+
+Lemma traversal_tags_lemma :
+  (forall t, In t insert_sds_tags -> In t list_sds_search_tags /\ In t compressible_tags) /\
+  (forall t, In t insert_image_tags -> In t list_gr_search_tags /\ In t compressible_tags) /\
+  (forall t, In t insert_vs_tags -> In t list_vs_search_tags) /\
+  (forall t, In t insert_sds_tags -> ~ In t insert_image_tags).
+Proof.
+  split; [|split; [|split]].
+  - intros t H. split; eapply covered_In; try exact H; vm_compute; reflexivity.
+  - intros t H. split; eapply covered_In; try exact H; vm_compute; reflexivity.
+  - intros t H. eapply covered_In; try exact H; vm_compute; reflexivity.
+  - intros t H1 H2.
+    assert (C : covered insert_sds_tags (filter (fun x => negb (existsb (Z.eqb x) insert_image_tags)) insert_sds_tags) = true)
+      by (vm_compute; reflexivity).
+    pose proof (covered_In _ _ C t H1) as F. apply filter_In in F. destruct F as [_ F].
+    apply negb_true_iff in F.
+    assert (existsb (Z.eqb t) insert_image_tags = true) by (apply existsb_exists; exists t; split; [exact H2 | apply Z.eqb_refl]).
+    congruence.
+Qed.
+
+Lemma copy_plumbing_lemma : copy_gr_plumbing = true /\ copy_sds_plumbing = true /\ copy_vs_plumbing = true.
+Proof. vm_compute. repeat split; reflexivity. Qed.
